@@ -137,6 +137,24 @@ def check_sig(spec, ret, future, stats, enum=True, shp=None):
             raw = [p.annotation for p in sig1.parameters.values() if p.annotation is not p.empty]
             if not all(isinstance(x, str) for x in raw):
                 stats.fail('C20/build/postponed-not-string', dict(case, options=opts), '%s: raw annotations %r are not strings under the future flag' % (desc, raw))
+    # --- a caller's global spelled like a name the helper injects itself (the generated source may refer to sigtools.modifiers):
+    # what the caller handed in is what the text denotes (native spelling only: the modifiers spellings need the module)
+    if 'T' in text or ret == 'T':
+        stats.case()
+        stats.cls('build/caller-global-named-modifiers')
+        t2 = text.replace('T', 'modifiers')
+        kw2 = {} if ret is None else {'ret': ret.replace('T', 'modifiers')}
+        ns2 = {'modifiers': GLOBALS['T']}
+        try:
+            for label, sg_ in (('signatures.signature(f(text))', signatures.signature(support.f(t2, globals=dict(ns2), future_features=ff, **kw2))),
+                               ('s(text)', support.s(t2, globals=dict(ns2), future_features=ff, **kw2))):
+                r = sg_.upgraded_return_annotation.source_value()
+                if got_params(sg_) != exp or (('NOANN',) if r is sg_.empty else r) != exp_ret:
+                    stats.fail('C20/build/caller-global-shadowed', dict(case, via=label),
+                               "%s for %r with globals={'modifiers': T} denotes %r return %r; the caller's binding gives %r return %r" % (label, t2, got_params(sg_), r, exp, exp_ret))
+                    break
+        except Exception as e:
+            stats.fail('C20/build/raised-%s' % type(e).__name__, dict(case, options={'globals': 'modifiers'}), 'support.f/s(%r, globals={"modifiers": T}) raised %s: %s' % (t2, type(e).__name__, e))
     # --- func_from_sig round trip (native spelling; needs names resolvable without globals: literals only)
     if all(p.ann in (None, '1', "'x'") for p in spec) and ret in (None, "'ret'") and not future:
         stats.case()
